@@ -1,6 +1,6 @@
 /-
 Wrapping decoder (C01, release build), part 6: every frame `encode_frame` returns — for every oracle log
-satisfying `OEvent.Ok`, WITHOUT `FrameFits` — is well-formed, serialisable, and within the limits of the
+satisfying `OEvent.Ok` — is well-formed, serialisable, and within the limits of the
 repository's own parser (`Repo.FrameOk`; the parser's LPC order limit `MAX_LPC_ORDER = 24` needs the
 corresponding bound on the oracle's parameter sets), so that C15 (`parser::frame` inverts `Frame::write`)
 applies to it.
@@ -65,8 +65,8 @@ theorem good_lpc (cfg : SubCfg) (xs : List Int) (bps : Nat) (log : List OEvent) 
   obtain ⟨coefs, shift, precision, errors, prc, hmem, hce, hsearch, rfl⟩ := hs
   obtain ⟨hc1, hc32, hp1, hp15, hs0, hs15, hcr⟩ := hlog _ hmem
   obtain ⟨hel, hef, _⟩ := computeError_wrap coefs shift.toNat xs errors hce
-  obtain ⟨hwf, _⟩ := Strict.residual_of_search errors coefs.length cfg.maxP prc hef
-    (by rw [hel]; omega) (by rw [hel]; exact hlen) hmax hsearch []
+  have hwf := Strict.residual_wf_of_search errors coefs.length cfg.maxP prc hef
+    (by rw [hel]; omega) (by rw [hel]; exact hlen) hmax hsearch
   have hwl : (xs.take coefs.length).length = coefs.length := by rw [List.length_take]; omega
   refine ⟨⟨hc1, hc32, hwl, by rw [hwl]; rfl, hwf, ?_, hp1, hp15, hs0, hs15, hcr, hb.1, by omega,
     fun x hxm => hx x (List.mem_of_mem_take hxm)⟩, ⟨hb.2, hord _ _ _ hmem, ofErrors_quot_lt _ _ _ _, ?_⟩, ?_, rfl⟩
@@ -76,7 +76,7 @@ theorem good_lpc (cfg : SubCfg) (xs : List Int) (bps : Nat) (log : List OEvent) 
     rw [Strict.ofErrors_blockSize, hel]
 
 /-- Every sub-frame `encode_subframe` returns is well-formed, within the parser's limits, of the block's
-size and of the requested width — no `LpcFits`. -/
+size and of the requested width. -/
 theorem encodeSubframe_good (cfg : SubCfg) (xs : List Int) (bps : Nat) (log log' : List OEvent) (s : SubFrame)
     (hn : 1 ≤ xs.length) (hlen : xs.length < 2 ^ 16) (hb : 1 ≤ bps ∧ bps ≤ 25)
     (hx : ∀ x ∈ xs, SubFrame.inRange bps x = true) (hmax : cfg.maxP ≤ 14)
